@@ -1,7 +1,7 @@
 (* C15, compile-time half: the card index recorded in a trace entry resolves, through the C16 model
    of Module::get_card / Card::get_child (CardEdit.v), to a card of the function being compiled -
-   the compiler's child numbering agrees with get_child for every card kind except the count card
-   of Repeat (finding N-C15-1: compiled under [.., 0, 0] instead of [.., 0]). *)
+   the compiler's child numbering agrees with get_child for every card kind (the count card of Repeat used to be
+   the exception, finding N-C15-1, repaired in /repo). *)
 From Coq Require Import List NArith ZArith Bool Lia.
 From Cao Require Import ListUtil CheckUtil Bits CardAst Bytecode Compiler CompilerGen Wellformed
      CompilerProofs CompilerWf.
@@ -173,7 +173,7 @@ Lemma frame3_resolve_var n : frame3 (resolve_var n).
 Proof.
   unfold resolve_var. apply frame3_bind; [apply frame3_validate|]. intros _ s.
   destruct (rfind_index _ _ _ _); cbn; [same3_tac|].
-  destruct (resolve_upvalue _ _ _) as [[[v ls] us]|]; cbn; [same3_tac | exact I].
+  destruct (resolve_upvalue _ _ _) as [[[v ls] us]|]; cbn; [same3_tac | reflexivity].
 Qed.
 Lemma frame3_global_id n : frame3 (global_id n).
 Proof.
@@ -297,32 +297,10 @@ Proof.
 Qed.
 
 (* ------------------------------------------------------------------ induction over cards *)
-Fixpoint repeat_free (c : card) : bool :=
-  match c with
-  | CRepeat _ _ _ => false
-  | CBin _ a b => repeat_free a && repeat_free b
-  | CUn _ a => repeat_free a
-  | CTri _ a b c => repeat_free a && repeat_free b && repeat_free c
-  | CCallNative _ args | CCall _ args | CComposite _ args | CArray args | CClosure _ args =>
-      forallb repeat_free args
-  | CDynamicCall f args => repeat_free f && forallb repeat_free args
-  | CSetGlobalVar _ v | CSetVar _ v => repeat_free v
-  | CForEach _ _ _ it b => repeat_free it && repeat_free b
-  | _ => true
-  end.
-
 Section Cards.
   Variable cards : list card.
 
-  Definition card_ok3 (c : card) : Prop :=
-    repeat_free c = true -> forall ctx, J cards (c :: ctx) (c :: ctx) (process_card c).
   Definition card_j (c : card) : Prop := forall ctx, J cards (c :: ctx) (c :: ctx) (process_card c).
-
-  Lemma Forall_ok3 l : Forall card_ok3 l -> forallb repeat_free l = true -> Forall card_j l.
-  Proof.
-    induction 1 as [|x r Hx _ IH]; cbn [forallb]; intros H; [constructor|].
-    apply andb_true_iff in H. destruct H as [H1 H2]. constructor; auto. intros ctx. apply Hx, H1.
-  Qed.
 
   Lemma J_subexpr parent ctx l : Forall card_j l -> forall i,
     (forall k x, nth_error l k = Some x -> CardEdit.get_child parent (N.to_nat i + k) = Some x) ->
@@ -395,22 +373,12 @@ Section Cards.
       | apply J_frame; solve [frame3_tac]
       | match goal with |- J _ _ _ (bind _ _) => eapply J_bind; [|intros ?] end ].
 
-  Ltac prep3 :=
-    match goal with H : repeat_free _ = true |- _ => cbn [repeat_free] in H end;
-    repeat match goal with H : _ && _ = true |- _ => apply andb_true_iff in H; destruct H end;
-    repeat match goal with
-           | IH : card_ok3 ?c, H : repeat_free ?c = true |- _ =>
-               let X := fresh "IHj" in assert (X : card_j c) by (intros ?; apply IH, H); clear IH
-           | IH : Forall _ ?l, H : forallb repeat_free ?l = true |- _ =>
-               pose proof (Forall_ok3 l IH H); clear IH
-           end.
-
-  Lemma process_card_ok3 c : card_ok3 c.
+  Lemma process_card_ok3 c : card_j c.
   Proof.
-    induction c using card_ind'; intros Hr ctx; cbn [process_card].
-    - (* CBin *) prep3. destruct op; repeat step3.
-    - prep3. destruct op; repeat step3.
-    - prep3. destruct op; repeat step3.
+    induction c using card_ind'; intros ctx; cbn [process_card].
+    - (* CBin *) destruct op; repeat step3.
+    - destruct op; repeat step3.
+    - destruct op; repeat step3.
     - repeat step3.
     - repeat step3.
     - repeat step3.
@@ -421,45 +389,44 @@ Section Cards.
     - repeat step3.
     - repeat step3.
     - repeat step3.
-    - (* CCallNative *) prep3. repeat step3.
-    - (* CCall *) prep3. repeat step3.
+    - (* CCallNative *) repeat step3.
+    - (* CCall *) repeat step3.
     - (* CDynamicCall *)
-      prep3. eapply J_bind; [step3 | intros _].
+      eapply J_bind; [step3 | intros _].
       eapply J_bind.
       { apply J_subexpr; [assumption|]. intros k x Hk. unfold CardEdit.get_child.
         change (N.to_nat 1 + k)%nat with (S k). cbn [Nat.eqb Nat.sub]. rewrite Nat.sub_0_r. exact Hk. }
       intros _. repeat step3.
     - (* CSetGlobalVar *)
-      prep3. eapply J_bind; [step3 | intros _]. eapply J_bind; [repeat step3 | intros _].
+      eapply J_bind; [step3 | intros _]. eapply J_bind; [repeat step3 | intros _].
       destruct (is_empty n); [apply J_frame, frame3_error|]. repeat step3.
     - (* CSetVar *)
-      prep3. eapply J_bind; [step3 | intros _]. eapply J_bind; [repeat step3 | intros _].
+      eapply J_bind; [step3 | intros _]. eapply J_bind; [repeat step3 | intros _].
       destruct (rsplit_once_c c_dot n) as [[rp sp]|]; [repeat step3|].
       eapply J_bind; [apply J_frame, frame3_resolve_var | intros var]. destruct var; repeat step3.
-    - (* CRepeat *) discriminate Hr.
-    - (* CForEach *) prep3. repeat step3.
-    - (* CComposite *) prep3. repeat step3.
+    - (* CRepeat *) repeat step3.
+    - (* CForEach *) repeat step3.
+    - (* CComposite *) repeat step3.
     - (* CArray *)
-      prep3. eapply J_bind; [step3 | intros _]. eapply J_bind; [step3 | intros _].
+      eapply J_bind; [step3 | intros _]. eapply J_bind; [step3 | intros _].
       eapply J_bind; [step3 | intros tv]. eapply J_bind; [step3 | intros _].
       eapply J_bind; [|intros _; step3].
       apply J_array_items; [assumption|]. intros k x Hk. cbn. exact Hk.
-    - (* CClosure *) prep3. repeat step3.
+    - (* CClosure *) repeat step3.
   Qed.
 
   (* ---- the cards of one function ---- *)
   Lemma process_cards_trace : forall rest done s s',
-    cards = done ++ rest -> forallb repeat_free rest = true ->
+    cards = done ++ rest ->
     (cs_idx s = [] \/ exists x, cs_idx s = [x]) ->
     process_cards rest (N.of_nat (length done)) s = ROk tt s' ->
     cs_fn s' = cs_fn s /\ cs_ns s' = cs_ns s /\
     exists new, cs_trace s' = new ++ cs_trace s /\
                 Forall (fun al => entry_ok cards (cs_ns s) (cs_fn s) (snd al)) new.
   Proof.
-    induction rest as [|c r IH]; intros done s s' Hc Hr Hidx H; cbn [process_cards] in H.
+    induction rest as [|c r IH]; intros done s s' Hc Hidx H; cbn [process_cards] in H.
     - injection H as <-. repeat split; auto. exists []. split; [reflexivity | constructor].
-    - cbn [forallb] in Hr. apply andb_true_iff in Hr. destruct Hr as [Hrc Hrr].
-      unfold bind in H. cbn [pop_sub push_sub] in H.
+    - unfold bind in H. cbn [pop_sub push_sub] in H.
       set (s1 := set_index (cs_fn (set_index (cs_fn s) (tl (cs_idx s)) s))
                            (N.of_nat (length done) :: cs_idx (set_index (cs_fn s) (tl (cs_idx s)) s))
                            (set_index (cs_fn s) (tl (cs_idx s)) s)) in H.
@@ -467,13 +434,13 @@ Section Cards.
       { subst s1. cbn. destruct Hidx as [->|[x ->]]; reflexivity. }
       assert (Hat : at_ctx cards (cs_idx s1) [c]).
       { rewrite Hidx1. constructor. rewrite Nat2N.id, Hc, nth_error_app2, Nat.sub_diag by lia. reflexivity. }
-      pose proof (process_card_ok3 c Hrc [] s1 Hat) as Hp.
+      pose proof (process_card_ok3 c [] s1 Hat) as Hp.
       destruct (process_card c s1) as [[] s2| | |]; try discriminate.
       destruct Hp as (Hat2 & Hfn2 & Hns2 & new1 & Ht1 & Hok1).
       assert (Hidx2 : exists x, cs_idx s2 = [x]) by (inversion Hat2; subst; eauto).
       replace (N.of_nat (length done) + 1) with (N.of_nat (length (done ++ [c]))) in H
         by (rewrite app_length; cbn; lia).
-      destruct (IH (done ++ [c]) s2 s' ltac:(rewrite <- app_assoc; exact Hc) Hrr (or_intror Hidx2) H)
+      destruct (IH (done ++ [c]) s2 s' ltac:(rewrite <- app_assoc; exact Hc) (or_intror Hidx2) H)
         as (Hfn3 & Hns3 & new2 & Ht2 & Hok2).
       assert (E1 : cs_fn s1 = cs_fn s) by reflexivity. assert (E2 : cs_ns s1 = cs_ns s) by reflexivity.
       assert (E3 : cs_trace s1 = cs_trace s) by reflexivity.
@@ -484,13 +451,12 @@ Section Cards.
       + rewrite E1, E2 in Hok1. exact Hok1.
   Qed.
   Lemma process_cards_error : forall rest done s e l,
-    cards = done ++ rest -> forallb repeat_free rest = true ->
+    cards = done ++ rest ->
     (cs_idx s = [] \/ exists x, cs_idx s = [x]) ->
     process_cards rest (N.of_nat (length done)) s = RErr e l ->
     exists lc, l = Some lc /\ entry_ok cards (cs_ns s) (cs_fn s) lc.
   Proof.
-    induction rest as [|c r IH]; intros done s e l Hc Hr Hidx H; cbn [process_cards] in H; [discriminate|].
-    cbn [forallb] in Hr. apply andb_true_iff in Hr. destruct Hr as [Hrc Hrr].
+    induction rest as [|c r IH]; intros done s e l Hc Hidx H; cbn [process_cards] in H; [discriminate|].
     unfold bind in H. cbn [pop_sub push_sub] in H.
     set (s1 := set_index (cs_fn (set_index (cs_fn s) (tl (cs_idx s)) s))
                          (N.of_nat (length done) :: cs_idx (set_index (cs_fn s) (tl (cs_idx s)) s))
@@ -499,14 +465,14 @@ Section Cards.
     { subst s1. cbn. destruct Hidx as [->|[x ->]]; reflexivity. }
     assert (Hat : at_ctx cards (cs_idx s1) [c]).
     { rewrite Hidx1. constructor. rewrite Nat2N.id, Hc, nth_error_app2, Nat.sub_diag by lia. reflexivity. }
-    pose proof (process_card_ok3 c Hrc [] s1 Hat) as Hp.
+    pose proof (process_card_ok3 c [] s1 Hat) as Hp.
     assert (E1 : cs_fn s1 = cs_fn s) by reflexivity. assert (E2 : cs_ns s1 = cs_ns s) by reflexivity.
     destruct (process_card c s1) as [[] s2|e1 l1| |]; try discriminate.
     - destruct Hp as (Hat2 & Hfn2 & Hns2 & _).
       assert (Hidx2 : exists x, cs_idx s2 = [x]) by (inversion Hat2; subst; eauto).
       replace (N.of_nat (length done) + 1) with (N.of_nat (length (done ++ [c]))) in H
         by (rewrite app_length; cbn; lia).
-      destruct (IH (done ++ [c]) s2 e l ltac:(rewrite <- app_assoc; exact Hc) Hrr (or_intror Hidx2) H)
+      destruct (IH (done ++ [c]) s2 e l ltac:(rewrite <- app_assoc; exact Hc) (or_intror Hidx2) H)
         as (lc & Hl & Hok).
       exists lc. split; auto. rewrite Hns2, Hfn2, E1, E2 in Hok. exact Hok.
     - injection H as <- <-. rewrite E1, E2 in Hp. exact Hp.
@@ -516,7 +482,6 @@ End Cards.
 (* every trace entry recorded while the cards of a function are compiled resolves, through
    Module::get_card of any module that has these cards as its function number [cs_fn], to a card *)
 Theorem emit_index_sound (cards : list card) s s' :
-  forallb repeat_free cards = true ->
   (cs_idx s = [] \/ exists x, cs_idx s = [x]) ->
   process_cards cards 0 s = ROk tt s' ->
   exists new, cs_trace s' = new ++ cs_trace s /\
@@ -526,8 +491,8 @@ Theorem emit_index_sound (cards : list card) s s' :
         nth_error (m_functions m) (cs_fn s) = Some (name, f) -> f_cards f = cards ->
         exists c, CardEdit.get_card m idx = CardEdit.ROk c.
 Proof.
-  intros Hr Hidx H.
-  destruct (process_cards_trace cards cards [] s s' eq_refl Hr Hidx H) as (_ & _ & new & Ht & Hok).
+  intros Hidx H.
+  destruct (process_cards_trace cards cards [] s s' eq_refl Hidx H) as (_ & _ & new & Ht & Hok).
   exists new. split; [exact Ht|]. intros a ns idx Hin.
   rewrite Forall_forall in Hok. specialize (Hok _ Hin). cbn [snd fst] in Hok.
   destruct Hok as (Hns & Hfn & b & path & c0 & c & Hi & Hb & Hd). split; [exact Hns|].
@@ -538,7 +503,6 @@ Qed.
 (* a compilation error raised while the cards of a function are compiled carries a location that
    resolves to a card of that function *)
 Theorem compile_error_loc (cards : list card) s e l :
-  forallb repeat_free cards = true ->
   (cs_idx s = [] \/ exists x, cs_idx s = [x]) ->
   process_cards cards 0 s = RErr e l ->
   exists ns idx, l = Some (ns, idx) /\ ns = cs_ns s /\
@@ -546,24 +510,24 @@ Theorem compile_error_loc (cards : list card) s e l :
       nth_error (m_functions m) (cs_fn s) = Some (name, f) -> f_cards f = cards ->
       exists c, CardEdit.get_card m idx = CardEdit.ROk c.
 Proof.
-  intros Hr Hidx H.
-  destruct (process_cards_error cards cards [] s e l eq_refl Hr Hidx H) as ([ns idx] & -> & Hok).
+  intros Hidx H.
+  destruct (process_cards_error cards cards [] s e l eq_refl Hidx H) as ([ns idx] & -> & Hok).
   exists ns, idx. cbn [fst snd] in Hok. destruct Hok as (Hns & Hfn & b & path & c0 & c & Hi & Hb & Hd).
   split; [reflexivity|]. split; [exact Hns|].
   intros m name f Hf Hcards. exists c. destruct idx as [fn li]. cbn in Hfn, Hi. subst fn.
   apply (get_card_resolves m (cs_fn s) name f li b path c0 c Hf Hi); [rewrite Hcards; exact Hb | exact Hd].
 Qed.
 
-(* finding N-C15-1: the count card of Repeat is compiled under [.., 0, 0]; get_child(Repeat, 0) is
-   the count card itself, so the index of its trace entry does not resolve *)
+(* finding N-C15-1 (repaired in /repo by "the count card of a Repeat is compiled under its own child
+   index"): the count card used to be compiled under [.., 0, 0]; now its trace entry resolves to it *)
 Definition repeat_module : module := main_module [CRepeat None (CScalarInt 3) CScalarNil].
-Lemma repeat_count_index_unresolvable :
+Lemma repeat_count_index_resolves :
   exists B idx,
     compile repeat_module default_options = COk B /\
     In (0, ([], idx)) (p_trace B) /\
-    CardEdit.get_card repeat_module idx = CardEdit.RErr (CardEdit.CardNotFound 2).
+    CardEdit.get_card repeat_module idx = CardEdit.ROk (CScalarInt 3).
 Proof.
   destruct (compile repeat_module default_options) as [B| | |] eqn:E; try (vm_compute in E; discriminate).
-  exists B, {| ci_function := 0; ci_indices := [0; 0; 0]%nat |}.
+  exists B, {| ci_function := 0; ci_indices := [0; 0]%nat |}.
   split; [reflexivity|]. vm_compute in E. injection E as <-. split; [left; reflexivity | reflexivity].
 Qed.
